@@ -60,6 +60,40 @@ def evaluate(case, FULL=False):
         return VIOL({'kind': 'amp', 'centre': centre, 'what': 'burst_fraction', 'via': 'aliased-buffer'},
                     'after the same array object was overwritten in place, burst_fraction is not that of the new content',
                     expected=bf.tolist(), observed=dfb['burst_fraction'].tolist(), evals=nev)
+    # tables whose rows are NOT adjacent cycles (rejected cycles removed, every other cycle, one row): burst_fraction is a
+    # per-cycle quantity over that cycle's own [last, next] window
+    from bycycle.features.burst import compute_burst_fraction
+    samp = dfb[[c for c in dfb.columns if c.startswith('sample_')]]
+    n = len(samp)
+    subsets = {'every-other': list(range(0, n, 2)), 'odd': list(range(1, n, 2)), 'gap': [i for i in range(n) if i not in (1, 2)],
+               'single': [n // 2], 'reversed': list(range(n))[::-1]}
+    for name, rows in subsets.items():
+        if not rows:
+            continue
+        sub = samp.iloc[rows]
+        if (n + len(name)) % 2:
+            sub = sub.reset_index(drop=True)
+        got = np.asarray(compute_burst_fraction(sub, np.array(sig), 64, (6, 14), amp_threshes=at), float)
+        nev += 1
+        if not same_values(got, bf[rows]):
+            return VIOL({'kind': 'amp', 'centre': centre, 'what': 'burst_fraction', 'via': 'row-subset'},
+                        'compute_burst_fraction on a table holding only rows %s (%s) is not the per-cycle inclusive-window mean' % (rows, name),
+                        expected=bf[rows].tolist(), observed=got.tolist(), evals=nev)
+    # the extrema localisation has its own filter settings: the sample-wise detector keeps ITS default filter (3 cycles)
+    for fek in ({'filter_kwargs': {'n_cycles': 2}}, {'filter_kwargs': {'n_seconds': .375}, 'boundary': 1}):
+        o2 = S.resolve((('trough',) if centre == 'trough' else ()) + (('nc2',) if 'n_cycles' in fek['filter_kwargs'] else ('ns.375', 'b1')))
+        if not precondition(sig, o2)[0]:
+            continue
+        df2 = compute_features(np.array(sig), 64, (6, 14), center_extrema=centre, burst_method='amp',
+                               threshold_kwargs={'burst_fraction_threshold': .5}, burst_kwargs={'amp_threshes': at},
+                               find_extrema_kwargs={k: (dict(v) if isinstance(v, dict) else v) for k, v in fek.items()})
+        nev += 1
+        bf2 = np.array([mask[int(a):int(b) + 1].mean() for a, b in zip(df2[sc['last']], df2[sc['next']])])
+        if not same_values(df2['burst_fraction'].to_numpy(), bf2):
+            return VIOL({'kind': 'amp', 'centre': centre, 'what': 'burst_fraction', 'via': 'find_extrema_kwargs'},
+                        'with find_extrema_kwargs=%r burst_fraction is not the mean of the detector mask for the given band, thresholds '
+                        'and minimum (the burst options carry no filter settings)' % (fek,), expected=bf2.tolist(),
+                        observed=df2['burst_fraction'].tolist(), evals=nev)
     plan = []
     RV = ROUTE_VALS_T if FULL else ROUTE_VALS
     if not FULL:
